@@ -96,6 +96,14 @@ def window_of(snd, a, b):
     return out
 
 
+def chord_ends(score):
+    t, out = F(0), []
+    for c in score:
+        t += max([sum(F(n["dur"]) for n in notes) for _, notes in c["parts"]], default=F(0))
+        out.append(t)
+    return out
+
+
 def has_relative(score):
     return any(n.get("dir") for c in score for _, notes in c["parts"] for n in notes)
 
@@ -110,6 +118,12 @@ class ScoreBetween(Stream):
     def gen(self, rng, n):
         for i in range(n):
             sc = sg.rand_score(rng, max_chords=4, rel=0.0 if i % 2 else 0.2, accs=False)
+            if i % 9 == 4:
+                # a doubling: the same melody under another instrument with another velocity of the same dynamics figure (same printed text)
+                for c in sc:
+                    nm, notes = c["parts"][0]
+                    if not nm.startswith("drums") and all(n2 != "oboe__0" for n2, _ in c["parts"]):
+                        c["parts"].append(["oboe__0", [dict(x, amp=(75 if x.get("amp", 66) == 66 and x["kind"] not in "rl" else x.get("amp", 66))) for x in notes]])
             if i % 5:
                 sc = sg.equalize(sc)
             pts, total = cut_points(rng, sc)
@@ -163,6 +177,11 @@ class ScoreBetween(Stream):
             got = r["wsound"]
             for nm in want:
                 if got.get(nm, []) != want[nm]:
+                    missing = [e for e in want[nm] if e not in got.get(nm, [])]
+                    extra = [e for e in got.get(nm, []) if e not in want[nm]]
+                    if not extra and missing and all(e[1] == 0 and e[2] == 0 for e in missing) and a in chord_ends(case["score"]):
+                        return {"sig": "window-content:zero-length-note-at-chord-end",
+                                "msg": f"part {nm} in [{a},{b}): the zero-length note(s) {missing} ending the chord that stops at {a} are lost"}
                     return {"sig": "window-content", "msg": f"part {nm} in [{a},{b}): {got.get(nm)} expected {want[nm]}"}
         if "joined" in r:
             if r["joined_dur"] != total:
